@@ -77,6 +77,8 @@ Theorem C29_standard_request_accepted :
   has_aws_chunked (hget B"Content-Encoding" (r_headers r))
     && mem_bytes (hget sha_hdr (r_headers r))
          [B"STREAMING-AWS4-ECDSA-P256-SHA256-PAYLOAD"; B"STREAMING-AWS4-ECDSA-P256-SHA256-PAYLOAD-TRAILER"] = false ->
+  (* when the body has to be hashed (header mode, no payload literal) it is delivered completely *)
+  needs_body_hash r (p_presigned p) && r_body_err r = false ->
   verify facts {| k_secret := secret; k_date := date; k_region := region; k_service := service; k_term := term |}
     {| s_alg := p_alg p; s_ts := p_timestamp p; s_scope := join B"/" [date; region; service; term];
        s_cr := canonical_request_of (r_method r) (spec_canonical_uri path)
@@ -108,7 +110,7 @@ Definition ex_req : request :=
      r_query := B"prefix=a%2Fb";
      r_headers := [(B"Authorization", [B"AWS4-HMAC-SHA256 Credential=AK/20260921/eu-central-1/s3/aws4_request, SignedHeaders=host;x-amz-content-sha256;x-amz-date, Signature=ab"]);
                    (B"X-Amz-Content-Sha256", [B"UNSIGNED-PAYLOAD"]); (B"X-Amz-Date", [B"20260921T120000Z"])];
-     r_payload := B"e3b0" |}.
+     r_payload := B"e3b0"; r_body_len := 0; r_body_err := false |}.
 Definition ex_names : list bytes := [B"host"; B"x-amz-content-sha256"; B"x-amz-date"].
 Definition ex_fact : fact :=
   {| f_key := {| k_secret := B"secret"; k_date := B"20260921"; k_region := B"eu-central-1"; k_service := B"s3"; k_term := B"aws4_request" |};
